@@ -1,5 +1,7 @@
 import Hpl.Wire.Sexp
 import Hpl.Model.Ast
+import Hpl.Model.Build
+import Hpl.Model.BuildProp
 /-! Wire codec: AST values <-> S-expressions (DESIGN Appendix D). Driver-side only. -/
 namespace Hpl
 namespace Codec
@@ -138,6 +140,63 @@ def encProperty (p : Property) : Sexp := .list [.atom "prop", encScope p.scope, 
 def decProperty : Sexp → Option Property
   | .list [.atom "prop", s, p, m] => do pure ⟨← decScope s, ← decPattern p, ← decMeta m⟩
   | _ => none
+
+
+mutual
+partial def decRaw : Sexp → Option Raw
+  | .list [.atom "lit", .str k, v] => do pure (.lit k (← decVal v))
+  | .list [.atom "this"] => some .this
+  | .list [.atom "var", .str n] => some (.var n)
+  | .list (.atom "set" :: vs) => do pure (.set (← decRawList vs))
+  | .list [.atom "range", lo, hi, a, b] => do pure (.range (← decRaw lo) (← decRaw hi) (← boolOf a) (← boolOf b))
+  | .list [.atom "quant", .atom q, .str x, d, b] => do
+      let q ← (if q == "all" then some Quant.all else if q == "some" then some Quant.some else none)
+      pure (.quant q x (← decRaw d) (← decRaw b))
+  | .list [.atom "un", .str o, a] => do pure (.un o (← decRaw a))
+  | .list [.atom "bin", .str o, a, b] => do pure (.bin o (← decRaw a) (← decRaw b))
+  | .list (.atom "call" :: .str f :: as) => do pure (.call f (← decRawList as))
+  | .list [.atom "field", m, .str n] => do pure (.field (← decRaw m) n)
+  | .list [.atom "index", a, i] => do pure (.index (← decRaw a) (← decRaw i))
+  | _ => none
+partial def decRawList : List Sexp → Option RawList
+  | [] => some .nil
+  | x :: xs => do pure (.cons (← decRaw x) (← decRawList xs))
+end
+
+def decRawSimple : Sexp → Option RawSimple
+  | .list [.atom "ev", .str n, a, p] => do
+      let a ← (match a with | .str a => some (some a) | .atom "_" => some none | _ => none)
+      let p ← (match p with | .atom "_" => some none | r => do pure (some (← decRaw r)))
+      pure ⟨n, a, p⟩
+  | _ => none
+
+def decRawEvent : Sexp → Option RawEvent
+  | .list (.atom "or" :: alts) => do pure (.disj (← alts.mapM decRawSimple))
+  | s => do pure (.simple (← decRawSimple s))
+
+def decOptRawEvent : Sexp → Option (Option RawEvent)
+  | .atom "_" => some none
+  | s => do pure (some (← decRawEvent s))
+
+def decRawProperty : Sexp → Option RawProperty
+  | .list [.atom "rprop", .list [.atom "scope", .atom sk, a, t], .list [.atom "pat", .atom pk, b, tr, mx], md] => do
+      let mx ← (match mx with
+        | .atom "inf" => some none
+        | .list [.atom "q", n, d, .atom u] => do
+            let u ← (if u == "s" then some TimeUnit.s else if u == "ms" then some TimeUnit.ms else none)
+            pure (some (mkRatOf (← n.intOf) (← d.natOf), u))
+        | _ => none)
+      pure ⟨← scopeKindOf sk, ← decOptRawEvent a, ← decOptRawEvent t, ← patternKindOf pk, ← decRawEvent b, ← decOptRawEvent tr, mx, ← decMeta md⟩
+  | _ => none
+
+def encErr (e : Err) : Sexp :=
+  match e with
+  | .internal w => .list [.atom "err", .atom "internal", .str w]
+  | e => .list [.atom "err", .atom e.name, .str ""]
+
+def encM {α : Type} (enc : α → List Sexp) : M α → Sexp
+  | .ok a => .list (.atom "ok" :: enc a)
+  | .error e => encErr e
 
 end Codec
 end Hpl
